@@ -165,7 +165,12 @@ Methods == {
   Mt("balance", "transfer", 4, "", "holder-or-caller", "false", SN),
   Mt("balance", "transfer", 4, "via", "calling-contract", "false", SN),   \* from = the helper contract that makes the call
   Mt("balance", "transfer", 4, "via-victim", "holder-or-caller", "false", SN),  \* a contract moving somebody else's funds
+  Mt("balance", "transfer", 4, "zero", "holder-or-caller", "false", {"ntf"}),   \* amount 0: a boundary value must not bypass the witness
   Mt("balance", "transferX", 4, "", "alphabet", F, SN),   \* see ClassOf: the doc comment also names the owner
+  Mt("balance", "transferX", 4, "zero", "alphabet", F, {"ntf"}),
+  Mt("balance", "lock", 5, "zero", "alphabet", F, SN),
+  Mt("balance", "mint", 3, "zero", "alphabet", F, SN),
+  Mt("balance", "burn", 3, "zero", "alphabet", F, {"ntf"}),
   Mt("balance", "lock", 5, "", "alphabet", F, SN),
   Mt("balance", "mint", 3, "", "alphabet", F, SN),
   Mt("balance", "burn", 3, "", "alphabet", F, SN),
